@@ -1402,3 +1402,77 @@ func (c *Ctx) checkDecodedPayloadOwned(rule string) {
 	}
 	c.floor(rule, n, 4)
 }
+
+// checkDecodedSizeGuards (O8): the readers of list / set / map headers and of string / binary lengths
+// reject exactly the negative sizes: every test of a decoded size against 0 or 1 that can lead to an
+// error is `size < 0`. (`<= 0` or `< 1` rejects the empty list - a metric without tags, an empty common
+// tag list - although the writer produced it: decode(encode(x)) fails for x with empty lists.)
+func (c *Ctx) checkDecodedSizeGuards(rule string) {
+	n := 0
+	for _, proto := range []string{"TBinaryProtocol", "TCompactProtocol"} {
+		for _, m := range []string{"ReadListBegin", "ReadSetBegin", "ReadMapBegin", "ReadString", "ReadBinary"} {
+			fn := c.fn(thriftPkg, proto, m)
+			if fn == nil {
+				continue
+			}
+			key := c.fnKey(fn)
+			c.sawFunc(key)
+			okAll := true
+			nT := 0
+			for _, b := range fn.Blocks {
+				iff, isIf := condOf(b)
+				if !isIf {
+					continue
+				}
+				op, x, y, isCmp := cmpOf(iff.Cond)
+				if !isCmp {
+					continue
+				}
+				if _, isK := x.(*ssa.Const); isK {
+					x, y = y, x
+					op = flipCmp(op)
+				}
+				k, isK := constInt(y)
+				if !isK || (k != 0 && k != 1) {
+					continue
+				}
+				bt, isB := x.Type().Underlying().(*types.Basic)
+				if !isB || bt.Info()&types.IsInteger == 0 || bt.Info()&types.IsUnsigned != 0 {
+					continue
+				}
+				if op != token.LSS && op != token.LEQ && op != token.GTR && op != token.GEQ {
+					continue
+				}
+				// does the "small" outcome lead to an error return?
+				smallIdx := 0
+				if op == token.GTR || op == token.GEQ {
+					smallIdx = 1
+				}
+				leadsToErr := false
+				for _, ra := range returnsFromEdge(b, smallIdx) {
+					rr := ra.ret.Results
+					if len(rr) > 0 && !isNilConst(ra.st.resolve(rr[len(rr)-1])) {
+						leadsToErr = true
+					}
+				}
+				if !leadsToErr {
+					continue
+				}
+				nT++
+				// normalise to "small" = x < bound
+				exact := (op == token.LSS && k == 0) || (op == token.GEQ && k == 0)
+				if !exact {
+					okAll = false
+					c.bad(rule, key, iff.Pos(), fmt.Sprintf("%s rejects sizes with `%s %d` instead of `< 0`: an empty list / string that the writer produced is refused by the reader", m, op, k), c.describe(iff))
+				}
+			}
+			if nT > 0 {
+				n++
+				if okAll {
+					c.ok(rule, key, fn.Pos(), "decoded sizes are rejected exactly when negative")
+				}
+			}
+		}
+	}
+	c.floor(rule, n, 4)
+}
